@@ -328,6 +328,7 @@ func (H) Gen(prop string, seed uint64, tier string) *hx.Case {
 	violP := 0.0
 	var viols []string
 	var c05 []string
+	c05p := 0.85
 	switch prop {
 	case "C02":
 		violP, viols = 0.3, []string{"bad-sig", "bad-sig", "tap-undef-hashtype", "tap-single-oor"}
@@ -336,7 +337,11 @@ func (H) Gen(prop string, seed uint64, tier string) *hx.Case {
 	case "C05":
 		violP, c05 = 0.4, ledger.C05Violations
 		viols = []string{"bad-sig", "overspend"}
-	case "C06", "C07", "C11", "C17", "C20":
+	case "C11":
+		// also blocks whose parsing stops half way, after the hashing workers of the first packs have been started
+		violP, c05p, c05 = 0.2, 0.4, []string{"tail-cut", "tail-cut", "witness-superfluous"}
+		viols = []string{"bad-sig", "spent-input", "immature", "overspend", "double-in-block", "later-output", "missing-input", "own-coinbase", "bad-sig", "spent-input"}
+	case "C06", "C07", "C17", "C20":
 		violP, viols = 0.12, []string{"bad-sig", "spent-input", "immature", "overspend", "double-in-block", "later-output", "missing-input", "own-coinbase", "bad-sig", "spent-input"}
 	}
 	best := tip
@@ -390,7 +395,7 @@ func (H) Gen(prop string, seed uint64, tier string) *hx.Case {
 		}
 		mut := ""
 		if r.Chance(violP) {
-			if len(c05) > 0 && r.Chance(0.85) {
+			if len(c05) > 0 && r.Chance(c05p) {
 				mut = c05[r.Intn(len(c05))]
 				if r.Chance(0.12) {
 					mut = ledger.C05Boundary[r.Intn(len(ledger.C05Boundary))]
